@@ -104,6 +104,10 @@ void ezc3d::c3d::readFile(unsigned int nByteToRead, char * c, int nByteFromPrevi
     if (pos != 1)
         this->seekg (nByteFromPrevious, pos); // Move to number analogs
     this->read (c, nByteToRead);
+    // If the end of the file is reached, the missing bytes are read as 0 instead of being left undefined
+    std::streamsize nByteRead(this->fail() ? this->gcount() : static_cast<std::streamsize>(nByteToRead));
+    for (size_t i = static_cast<size_t>(nByteRead < 0 ? 0 : nByteRead); i < nByteToRead; ++i)
+        c[i] = '\0';
     c[nByteToRead] = '\0'; // Make sure last char is NULL
 }
 
